@@ -51,7 +51,7 @@ class Case:
                 "fact": None if self.fact is None else {"vals": [[str(x) for x in r] for r in self.fact["vals"]],
                                                          "valid": np.asarray(self.fact["valid"]).tolist(),
                                                          "form": self.fact["form"], "dtype": self.fact["dtype"],
-                                                         "oned": self.fact["oned"]},
+                                                         "oned": self.fact["oned"], "offset": self.fact.get("offset", 0)},
                 "weights": None if self.weights is None else {k: (str(v) if k == "w" and self.weights["kind"] == "scalar"
                                                                   else [str(x) for x in v] if k == "w"
                                                                   else np.asarray(v).tolist() if k == "valid" else v)
@@ -92,6 +92,10 @@ class Case:
                 out = (out[0][:, 0].copy(), out[1][:, 0].copy()) if isinstance(out, tuple) else out[:, 0].copy()
             return out
         vals = np.array([[float(x) for x in r] for r in f["vals"]], dtype=float).reshape((len(f["vals"]), f["K"]))
+        # "offset": the implementation sees every value shifted by a large constant (exactly representable together with
+        # the quarter-valued data); the specification keeps the unshifted values, because spread statistics are invariant
+        # under translation and TLC's integers are 32-bit
+        vals = vals + float(f.get("offset", 0))
         valid = np.asarray(f["valid"], dtype=bool).reshape(vals.shape)
         if f["form"] == "nan":
             arr = vals.copy()
@@ -151,15 +155,33 @@ def call_cube(cube, case, rnd, args_out=None):
     wa = case.weights_arg(rnd)
     if args_out is not None:
         args_out.extend([fa, wa, digest([fa, wa])])
+    # how a caller writes the call is part of the input: everything by keyword, everything positionally in the
+    # documented order, or only what differs from the documented defaults
+    style = rnd.choice(["kw", "kw", "positional", "defaults"])
+    ig, rma = kw["ignore_missing"], kw["return_missing_as"]
+    if style == "defaults":
+        if ig is False:
+            kw.pop("ignore_missing")
+        if isinstance(rma, float) and rma != rma:
+            kw.pop("return_missing_as")
+    wkw = {} if (style == "defaults" and wa is None) else {"weights": wa}
     if f == "count":
+        if style == "positional":
+            return cube.count(wa, case.N, ig, rma)
         if case.N is not None:
             kw["N"] = case.N
-        return cube.count(weights=wa, **kw)
+        return cube.count(**wkw, **kw)
     if f in ("valid_count", "sum", "mean", "stddev", "covariance", "corrcoef"):
-        return getattr(cube, f)(fa, weights=wa, **kw)
+        if style == "positional":
+            return getattr(cube, f)(fa, wa, ig, rma)
+        return getattr(cube, f)(fa, **wkw, **kw)
     if f in ("quantile", "wquantile"):
-        return cube.quantile(fa, float(case.p), weights=wa, **kw)
+        if style == "positional":
+            return cube.quantile(fa, float(case.p), wa, ig, rma)
+        return cube.quantile(fa, float(case.p), **wkw, **kw)
     if f in ("min", "max"):
+        if style == "positional":
+            return getattr(cube, f)(fa, ig, rma)
         return getattr(cube, f)(fa, **kw)
     raise ValueError(f)
 
